@@ -328,7 +328,7 @@ func init() {
 		Exec:      c11Exec,
 		Judge:     c11Judge,
 		Describe:  c11Describe,
-		QuickN:    4000,
+		QuickN:    4000*2,
 		ThoroughN: 200000,
 	})
 }
